@@ -539,6 +539,14 @@ func (r *c07Run) proposalMsgs(k int, reverter common.Address) ([]sdk.Msg, string
 	case 0:
 		p := r.b.K.GetParams(c.Ctx)
 		p.AverageBlockTime += 1
+		switch c.Height % 3 {
+		case 0: // the signed window grows (the slashing cursors may then lie inside the new window) ...
+			p.SignedWindow = p.SignedWindow*2 + 3
+		case 1: // ... or shrinks
+			if p.SignedWindow > 3 {
+				p.SignedWindow = p.SignedWindow/2 + 1
+			}
+		}
 		return []sdk.Msg{&crosschaintypes.MsgUpdateParams{ChainName: r.spec.Chain, Authority: gov, Params: p}}, "passed"
 	case 1: // fails: removes more than 30% of the power
 		return []sdk.Msg{&crosschaintypes.MsgUpdateChainOracles{ChainName: r.spec.Chain, Authority: gov, Oracles: []string{c.Users[4].Bech32()}}}, "failed-or-passed"
